@@ -152,16 +152,15 @@ func vpCheckServerPass(P string, base SimpleMiddlewareBase, ctx context.Context)
 // C17: size limits. The limit is a free positive integer; sizes 0..3 are
 // shapes, so "below, at, above" is the solver's choice of the limit.
 func vpH_C17_sizes() {
-	ctx := context.Background()
 	limit := vpInt("limit")
 	vpAssume(limit >= 1)
 	msg := vpGenClientMsg("m")
 	which := vpChoice("middleware", 5)
-	var base SimpleMiddlewareBase
+	var mw Middleware
 	respects := true
 	switch which {
 	case 0:
-		base = newSimpleMaxReqFiltersMiddlewareBase(limit)
+		mw = Middleware(NewMaxReqFiltersMiddleware(limit))
 		switch m := msg.(type) {
 		case *ClientReqMsg:
 			respects = len(m.ReqFilters) <= limit
@@ -169,7 +168,7 @@ func vpH_C17_sizes() {
 			respects = len(m.ReqFilters) <= limit
 		}
 	case 1:
-		base = newSimpleMaxLimitMiddlewareBase(limit)
+		mw = Middleware(NewMaxLimitMiddleware(limit))
 		var fs []*ReqFilter
 		switch m := msg.(type) {
 		case *ClientReqMsg:
@@ -183,7 +182,7 @@ func vpH_C17_sizes() {
 			}
 		}
 	case 2:
-		base = newSimpleMaxSubIDLengthMiddlewareBase(limit)
+		mw = Middleware(NewMaxSubIDLengthMiddleware(limit))
 		switch m := msg.(type) {
 		case *ClientReqMsg:
 			respects = len(m.SubscriptionID) <= limit
@@ -191,23 +190,35 @@ func vpH_C17_sizes() {
 			respects = len(m.SubscriptionID) <= limit
 		}
 	case 3:
-		base = newSimpleMaxEventTagsMiddlewareBase(limit)
+		mw = Middleware(NewMaxEventTagsMiddleware(limit))
 		if m, ok := msg.(*ClientEventMsg); ok {
 			respects = len(m.Event.Tags) <= limit
 		}
 	case 4:
-		base = newSimpleMaxContentLengthMiddlewareBase(limit)
+		mw = Middleware(NewMaxContentLengthMiddleware(limit))
 		if m, ok := msg.(*ClientEventMsg); ok {
 			respects = len(m.Event.Content) <= limit
 		}
 	}
-	ctx2, err := base.ServeNostrStart(ctx)
-	vpAssert(err == nil, "C17.start")
-	cm, sm, err := base.ServeNostrClientMsg(ctx2, msg)
-	vpCheckVerdict("C17", msg, respects, cm, sm, err)
-	vpCheckServerPass("C17", base, ctx2)
-	vpAssert(base.ServeNostrEnd(ctx2) == nil, "C17.end")
+	vpRunVerdict("C17", mw, msg, respects)
 	vpReach("end")
+}
+
+// vpRunVerdict: one real session of the middleware around a recording handler: the verdict
+// on msg, then a server message passes unchanged.
+func vpRunVerdict(P string, mw Middleware, msg ClientMsg, respects bool) {
+	inner := &vpInner{}
+	ss := vpStartSession(mw(inner), inner)
+	vpAssert(ss.inner != nil, P+".start")
+	fwd, rep := ss.client(msg)
+	vpVerdict(P, msg, respects, fwd, rep)
+	sm := vpGenServerMsg("s")
+	out := ss.server(sm)
+	vpAssert(len(out) == 1, P+".server-pass-one")
+	if len(out) == 1 {
+		vpAssert(vpUnchanged(out[0], sm), P+".server-pass-unchanged")
+	}
+	ss.cancel()
 }
 
 type vpFreeMatcher struct{ verdict bool }
@@ -217,22 +228,21 @@ func (m vpFreeMatcher) Match(*Event) bool { return m.verdict }
 // C17: allow/deny filters with a free matcher outcome; created_at windows with
 // the clock as a free duration (engine stub) and representative limits.
 func vpH_C17_matcher() {
-	ctx := context.Background()
 	msg := vpGenClientMsg("m")
 	which := vpChoice("middleware", 5)
-	var base SimpleMiddlewareBase
+	var mw Middleware
 	respects := true
 	_, isEvent := msg.(*ClientEventMsg)
 	switch which {
 	case 0:
 		v := vpBool("verdict")
-		base = newSimpleRecvEventAllowFilterMiddlewareBase(vpFreeMatcher{v})
+		mw = Middleware(NewRecvEventAllowFilterMiddleware(vpFreeMatcher{v}))
 		if isEvent {
 			respects = v
 		}
 	case 1:
 		v := vpBool("verdict")
-		base = newSimpleRecvEventDenyFilterMiddlewareBase(vpFreeMatcher{v})
+		mw = Middleware(NewRecvEventDenyFilterMiddleware(vpFreeMatcher{v}))
 		if isEvent {
 			respects = !v
 		}
@@ -244,38 +254,38 @@ func vpH_C17_matcher() {
 		}
 		secs := []int64{0, 1, 60, 1 << 31}[vpChoice("secs", 4)]
 		lim := time.Duration(secs) * time.Second
+		// the clock is read while the message is served; its k-th value is named afterwards
+		from := int64(0)
 		switch which {
 		case 2:
-			base = newSimpleCreatedAtLowerLimitMiddlewareBase(secs)
-			cm, sm, err := base.ServeNostrClientMsg(ctx, msg)
-			if isEvent {
-				respects = vpClock("clock.since", 0) <= int64(lim)
-			}
-			vpCheckVerdict("C17", msg, respects, cm, sm, err)
+			mw = Middleware(NewCreatedAtLowerLimitMiddleware(secs))
 		case 3:
-			base = newSimpleCreatedAtUpperLimitMiddlewareBase(secs)
-			cm, sm, err := base.ServeNostrClientMsg(ctx, msg)
-			if isEvent {
-				respects = vpClock("clock.until", 0) <= int64(lim)
-			}
-			vpCheckVerdict("C17", msg, respects, cm, sm, err)
+			mw = Middleware(NewCreatedAtUpperLimitMiddleware(secs))
 		case 4:
-			from := time.Duration(vpInt64("from"))
-			base = newSimpleEventCreatedAtMiddlewareBase(from, lim)
-			cm, sm, err := base.ServeNostrClientMsg(ctx, msg)
-			if isEvent {
-				d := vpClock("clock.until", 0)
-				respects = vpAnd(int64(from) <= d, d <= int64(lim))
-			}
-			vpCheckVerdict("C17", msg, respects, cm, sm, err)
+			from = vpInt64("from")
+			mw = Middleware(NewEventCreatedAtMiddleware(time.Duration(from), lim))
 		}
-		vpCheckServerPass("C17", base, ctx)
+		inner := &vpInner{}
+		ss := vpStartSession(mw(inner), inner)
+		vpAssert(ss.inner != nil, "C17.start")
+		fwd, rep := ss.client(msg)
+		if isEvent {
+			switch which {
+			case 2:
+				respects = vpClock("clock.since", 0) <= int64(lim)
+			case 3:
+				respects = vpClock("clock.until", 0) <= int64(lim)
+			case 4:
+				d := vpClock("clock.until", 0)
+				respects = vpAnd(from <= d, d <= int64(lim))
+			}
+		}
+		vpVerdict("C17", msg, respects, fwd, rep)
+		ss.cancel()
 		vpReach("end")
 		return
 	}
-	cm, sm, err := base.ServeNostrClientMsg(ctx, msg)
-	vpCheckVerdict("C17", msg, respects, cm, sm, err)
-	vpCheckServerPass("C17", base, ctx)
+	vpRunVerdict("C17", mw, msg, respects)
 	vpReach("end")
 }
 
@@ -304,7 +314,9 @@ func (b *vpVerdictBase) ServeNostrServerMsg(ctx context.Context, msg ServerMsg) 
 func vpH_C17_loop() {
 	k := 1 + vpChoice("k", 3)
 	base := &vpVerdictBase{reject: map[ClientMsg]bool{}}
-	recv := make(chan ClientMsg, k)
+	inner := &vpInner{}
+	ss := vpStartSession(NewSimpleMiddleware(base)(inner), inner)
+	vpAssert(ss.inner != nil, "C17.start")
 	var msgs []ClientMsg
 	var rej []bool
 	for i := 0; i < k; i++ {
@@ -313,17 +325,17 @@ func vpH_C17_loop() {
 		base.reject[m] = r
 		msgs = append(msgs, m)
 		rej = append(rej, r)
-		recv <- m
 	}
-	close(recv)
-	send := make(chan ServerMsg, 8)
-	rCh := make(chan ClientMsg, 8)
-	err := simpleMiddlewareHandleRecv(context.Background(), base, recv, send, rCh)
-	_ = err // the loop has ended; which error value reports the closed input is not part of the statement
-	close(rCh)
-	close(send)
-	fwd := vpDrainClient(rCh)
-	rep := vpDrainServer(send)
+	// the k messages are pipelined (sent without waiting for their outcome)
+	go func() {
+		for _, m := range msgs {
+			ss.toMW <- m
+		}
+	}()
+	for i := 0; i < 4; i++ {
+		ss.wait()
+	}
+	fwd, rep := ss.drain()
 	var want []ClientMsg
 	nrej := 0
 	for i, m := range msgs {
@@ -336,29 +348,27 @@ func vpH_C17_loop() {
 	vpAssert(len(fwd) == len(want), "C17.loop-forwards-the-rest")
 	for i := range want {
 		if i < len(fwd) {
-			vpAssert(fwd[i] == want[i], "C17.loop-order-unchanged")
+			vpAssert(vpUnchanged(fwd[i], want[i]), "C17.loop-order-unchanged")
 		}
 	}
 	vpAssert(len(rep) == nrej, "C17.loop-one-reply-per-rejection")
 
-	// send side
-	sCh := make(chan ServerMsg, k)
+	// send side: k server messages emitted by the wrapped handler arrive unchanged, in order
 	var smsgs []ServerMsg
 	for i := 0; i < k; i++ {
 		m := NewServerEOSEMsg(fmt.Sprintf("s%d", i))
 		smsgs = append(smsgs, m)
-		sCh <- m
+		ss.inner.emit <- m
 	}
-	ctx, cancel := context.WithCancel(context.Background())
-	out := make(chan ServerMsg, 8)
-	done := make(chan error, 1)
-	go func() { done <- simpleMiddlewareHandleSend(ctx, base, out, sCh) }()
-	for i := 0; i < k; i++ {
-		got := <-out
-		vpAssert(got == smsgs[i], "C17.loop-server-order-unchanged")
+	for i := 0; i < 4; i++ {
+		ss.wait()
 	}
-	cancel()
-	vpAssert(<-done != nil, "C17.loop-send-ends-on-cancel")
+	_, out := ss.drain()
+	vpAssert(len(out) == k, "C17.loop-server-order-unchanged")
+	for i := 0; i < k && i < len(out); i++ {
+		vpAssert(vpUnchanged(out[i], smsgs[i]), "C17.loop-server-order-unchanged")
+	}
+	ss.cancel()
 	vpReach("end")
 }
 
